@@ -162,6 +162,15 @@ def oracle(ctx, sp, p, res, label):
             break
 
 
+def inject_zero_potential(sp, seed):
+    """every fifth multi-component system gets an 'ideal' pair: a potential that is identically zero on the grid (LennardJones with
+    epsilon = 0) closed WITHOUT the hard-core condition - c(r) of that pair is then driven by the other species only"""
+    if len(sp['types']) >= 2 and seed % 5 == 0:
+        t = sp['types'][-1]
+        sp['pot'][G.pk(t, t)] = {'t': 'LJ', 'eps': 0.0}
+        sp['clo'][G.pk(t, t)] = {'t': ['HNC', 'MS', 'PY', 'HNC'][seed // 5 % 4], 'hc': False, 'alias': bool(seed // 20 % 2)}
+
+
 def run_cost_ref(ctx, case):
     """history + executable model: the real cost function against an independent re-implementation, for arbitrary (not only
     converged) arguments.  A solve only ever sees the cost function, so agreement here plus the post-conditions on solved
@@ -172,6 +181,7 @@ def run_cost_ref(ctx, case):
         sp = G.integer_grid(sp)
     if len(sp['types']) > 1 and rng.random() < 0.4:
         G.add_cross_omegas(sp, rng)
+    inject_zero_potential(sp, case['seed'])
     r = R.grids(sp['L'], sp['dr'])[0]
     for (i, j), (a, b) in G.pairs(sp['types']):
         ps = sp['pot'][G.pk(a, b)]
@@ -252,6 +262,7 @@ def run_case(ctx, case):
     if case['cross'] and len(sp['types']) > 1:
         G.add_cross_omegas(sp, rng)
     n = len(sp['types'])
+    inject_zero_potential(sp, case['seed'])
     sp['via'] = case.get('via', 'dr') if not case.get('intgrid') else 'dr'
     sp['kT_via'] = case.get('kT_via', 'ctor')
     s = G.build(sp)                      # the user-level spec `sp` is complete before the real objects exist
@@ -306,6 +317,36 @@ def run_case(ctx, case):
     ctx.hook('solve.converged')
     label = '%s/%s%s/guess=%s/domain-via-%s/kT-via-%s%s' % (G.spec_signature(sp), used[0], '(wolfe)' if used[1] else '', case['guess'], sp['via'], sp['kT_via'], '/deferred' if case.get('deferred') else '')
     oracle(ctx, sp, p, res, label)
+    if case['seed'] % 4 == 1 and not isinstance(sp['dr'], int):
+        # the work goes on with the System the solved object carries (PRISM.sys): the user gives one potential an explicit contact distance
+        # there (or changes a diameter) and solves again, starting from the previous root
+        sp2 = __import__('copy').deepcopy(sp)
+        s2 = p.sys
+        a, b = sp['types'][0], sp['types'][-1]
+        key = G.pk(a, b)
+        la, lb = G.lab(sp, a), G.lab(sp, b)
+        if R.hard_core_family(sp2['pot'][key]) and case['seed'] % 8 == 1:
+            newsig = float(round(R.pot_sigma(sp2['pot'][key], G.sigma_of(sp, a, b)) + sp['dr'], 10))
+            s2.potential[la, lb].sigma = newsig
+            sp2['pot'][key]['sigma'] = newsig
+            what = 'potential[%s].sigma=%r set on PRISM.sys' % (key, newsig)
+        else:
+            newd = float(round(sp['d'][a] + sp['dr'], 10))
+            s2.diameter[la] = newd
+            sp2['d'][a] = newd
+            what = 'diameter[%s]=%r set on PRISM.sys' % (a, newd)
+        with np.errstate(all='ignore'):
+            p2 = s2.createPRISM()
+        _S['trace'] = []
+        opt = {'maxiter': 60 if used[0] == 'krylov' else 400}
+        opt.update(used[1])
+        if used[0] in ('hybr', 'lm'):
+            opt = {}
+        r2 = G.solve(p2, used[0], opt, guess=np.array(res.x), max_evals=1500)
+        ctx.count('continued_on_prism_sys', 'converged' if (r2 is not None and r2.success) else 'not converged')
+        if r2 is not None and r2.success:
+            ctx.hook('solve.continued_on_prism_sys')
+            oracle(ctx, sp2, p2, r2, label + '/continued on PRISM.sys after ' + what)
     if len(_S['trace']) >= 3:
         ctx.nontrivial([case['seed'], used[0], case['guess']])
     _S['trace'] = None
